@@ -707,6 +707,12 @@ class Interp(object):
                 self.path.oblige(self.oblname("yields_each/" + name), self.spec(expr, f.entry_env, extra=extra), kind="yield")
         f.ytrace.add_item(v)
         self.path.event("yield", v)
+        if f.verifying and f.node is not None and any(
+                isinstance(d, ast.Name) and d.id == "contextmanager" for d in f.node.decorator_list):
+            # verifying a @contextmanager generator: the with-body may raise, the exception is thrown in here
+            if self.path.nondet("with_body_raises"):
+                self.path.event("with_body_raised")
+                raise PyRaise("BodyError", origin="the body of the with statement raised")
 
     def e_ListComp(self, node, env):
         if len(node.generators) != 1 or node.generators[0].ifs:
